@@ -22,6 +22,10 @@ pub enum Op {
     Change { key: String, text: String, class: String },
     Save { key: String, text: Option<String>, class: String },
     Restart,
+    /// format-on-save: the editor applies the server's own formatting answer and sends it back
+    ApplyFormat { key: String },
+    /// refactor-then-type: the editor resolves the `pick`-th code action offered at `line` and applies its edits
+    ApplyAction { key: String, line: u32, pick: usize },
 }
 
 impl Op {
@@ -30,6 +34,8 @@ impl Op {
             Op::Change { class, .. } => class.clone(),
             Op::Save { class, text, .. } => format!("save{}:{}", if text.is_some() { "" } else { "-notext" }, class),
             Op::Restart => "restart".into(),
+            Op::ApplyFormat { .. } => "apply_format".into(),
+            Op::ApplyAction { .. } => "apply_action".into(),
         }
     }
 }
@@ -88,6 +94,7 @@ pub fn generate(seed: u64, tier: Tier) -> History {
     let n_ops = swarm.range(1, max_ops);
     let restart_pct = *swarm.pick(&[0u32, 0, 5, 10, 25]);
     let save_pct = *swarm.pick(&[0u32, 10, 30]);
+    let apply_pct = *swarm.pick(&[0u32, 0, 10, 25]);
     // swarm: enabled mutation subset
     let mut enabled: Vec<usize> = (0..gen::MUTATIONS.len()).filter(|_| swarm.chance(1, 2)).collect();
     while enabled.len() < 4 {
@@ -116,6 +123,17 @@ pub fn generate(seed: u64, tier: Tier) -> History {
         if work.chance(restart_pct, 100) {
             ops.push(Op::Restart);
             probes.insert("restart-fired".into());
+            continue;
+        }
+        if work.chance(apply_pct, 100) && !docs.is_empty() {
+            let ks: Vec<String> = docs.keys().cloned().collect();
+            let key = work.pick(&ks).clone();
+            if work.chance(1, 3) {
+                ops.push(Op::ApplyFormat { key });
+            } else {
+                ops.push(Op::ApplyAction { key, line: work.below(12) as u32, pick: work.below(6) });
+            }
+            probes.insert("server-produced-text-applied".into());
             continue;
         }
         version += 1;
@@ -208,6 +226,7 @@ pub fn generate(seed: u64, tier: Tier) -> History {
 fn op_kind(model: &BTreeMap<String, String>, op: &Op) -> &'static str {
     match op {
         Op::Restart => "restart",
+        Op::ApplyFormat { .. } | Op::ApplyAction { .. } => "update",
         Op::Change { key, .. } | Op::Save { key, .. } => {
             if model.contains_key(key) {
                 "update"
@@ -398,6 +417,41 @@ pub fn run(h: &History, with_patches: bool) -> Outcome {
                 }
                 Op::Save { key, text: None, .. } => {
                     let _ = guarded(|| canon::did_save(&mut inc, key, None));
+                }
+                Op::ApplyFormat { .. } | Op::ApplyAction { .. } => {
+                    // the texts come from the long-lived server's own answers (which the previous step has
+                    // already compared with a fresh server's)
+                    let edits: Vec<(String, String)> = match op {
+                        Op::ApplyFormat { key } => canon::formatting(&inc, key).ok().filter(|_| model.contains_key(key)).map(|t| vec![(key.clone(), t)]).unwrap_or_default(),
+                        Op::ApplyAction { key, line, pick } => {
+                            if model.contains_key(key) {
+                                canon::action_edits(&inc, key, *line, *pick)
+                            } else {
+                                vec![]
+                            }
+                        }
+                        _ => vec![],
+                    };
+                    if !edits.is_empty() {
+                        *out.probes.entry(format!("{}-produced-{}-edits", class, edits.len().min(3))).or_default() += 1;
+                    }
+                    for (k, t) in edits {
+                        let r = guarded(|| canon::did_change(&mut inc, &k, &t));
+                        model.insert(k.clone(), t.clone());
+                        if r.is_err() {
+                            match guarded(|| canon::new_server(&model, &h.refs_ext)) {
+                                Err(_) => {
+                                    out.discarded = true;
+                                    return out;
+                                }
+                                Ok(_) => {
+                                    out.violations.push(Violation { property: "C04".into(), step, label: "update".into(), inc: r.err().unwrap_or_default(), fresh: "fresh build of the same texts succeeds".into(), signature: format!("update-panicked/{}", class) });
+                                    out.digest = digest;
+                                    return out;
+                                }
+                            }
+                        }
+                    }
                 }
             }
         } else {
